@@ -8,8 +8,8 @@ import testrun
 import vp
 
 HOSTILE = ["plain", "-x", "--flag", "--env", "--rm", "--", "-", "with space", "a=b", "=lead", "trail=", "q\"uote", "single'q", "$HOME", "`id`", "café", "日本語", "", " ", "a;b", "*",
-           "--name=evil", "--entrypoint", "x y z", "\ttab", "new\nline", "--publish=1:1"]
-KEYS = ["A", "PATH", "lower", "with space", "-dash", "--double", "k.ey", "café", "K_1", "0"]
+           "--name=evil", "--entrypoint", "x y z", "\ttab", "new\nline", "--publish=1:1", "8080", "3000", "true", "/bin/sh"]
+KEYS = ["A", "PATH", "lower", "with space", "-dash", "--double", "k.ey", "café", "K_1", "0", "PORT", "PORT", "HOME", "CNB_PLATFORM_API", "DOCKER_HOST", "ENTRYPOINT"]
 BUILDPACKS = ["./fixtures/app", "../crate/fixtures", "./does/not/exist", "fixtures/app", ".", "heroku/nodejs", "heroku/procfile@1.2.3", "urn:cnb:registry:x/y", "/abs/path/bp", "rel/bp.cnb", "-weird", "--also", "docker://img/bp:1", "with space/bp", "a=b", "dup/bp", "dup/bp"]
 DEEP = "/".join("d%d" % i for i in range(20))
 FIXTURE = {"fixtures/app/%s/leaf20.txt" % DEEP: "twenty levels down", "../crate2/fixtures/app/index.txt": "the other crate's app", "../crate2/fixtures/app/only-in-crate2": "2",
